@@ -30,6 +30,7 @@ func (process *Process) SpawnThenTransition(re *RuntimeEnvironment) {
 
 // Entry point for each process transition
 func (process *Process) transitionLoop(re *RuntimeEnvironment) {
+	verifPoint(1)
 	re.logProcessf(LOGPROCESSING, process, "Process transitioning: %s\n", process.Body.String())
 
 	// Send heartbeat
@@ -52,6 +53,7 @@ func TransitionBySending(process *Process, toChan chan Message, continuationFunc
 		// Split process if needed
 		process.performDUPrule(re)
 	} else {
+		verifPoint(3)
 		// Send message and perform the remaining work defined by continuationFunc
 		// If received cancellation request, then stop
 		select {
@@ -73,6 +75,7 @@ func TransitionByReceiving(process *Process, clientChan chan Message, processMes
 		// Split process if needed
 		process.performDUPrule(re)
 	} else {
+		verifPoint(4)
 		select {
 		case <-re.ctx.Done():
 			// Received cancellation request, then stop
@@ -642,6 +645,7 @@ func (f *ForwardForm) Transition(process *Process, re *RuntimeEnvironment) {
 		// ACTIVE
 
 		message := Message{Rule: FWD, Providers: process.Providers}
+		verifPoint(7)
 		f.from_c.Channel <- message
 		re.logProcessf(LOGRULE, process, "[forward, client] sent FWD request to client %s\n", f.from_c.String())
 
@@ -654,6 +658,7 @@ func (f *ForwardForm) Transition(process *Process, re *RuntimeEnvironment) {
 		// PASSIVE: wait before acting
 
 		// Blocks until it received a message
+		verifPoint(8)
 		message := <-f.from_c.Channel
 		re.logProcessf(LOGRULE, process, "[forward, +ve] received message on %s. Will become a %s \n", f.from_c.String(), RuleString[message.Rule])
 
@@ -842,6 +847,7 @@ func (process *Process) performDUPrule(re *RuntimeEnvironment) {
 
 		// Need to spawn the new duplicated processes except the first one (since it's already running in its own thread) -- this was changed... since keeping the first one alive seems to be causing issues
 		// if i > 0 {
+		verifPoint(9)
 		newDuplicatedProcess.SpawnThenTransition(re)
 		// } else {
 		// 	process = newDuplicatedProcess
